@@ -305,6 +305,51 @@ Fixpoint rfeed_chunks (st : rmode) (chunks : list bytes) : rmode * list rmsg :=
       let '(st2, o2) := rfeed_chunks st1 cs in (st2, o1 ++ o2)
   end.
 
+(* ---- json.dumps(kwargs, cls=MpfJSONEncoder): ensure_ascii, separators (', ', ': ') ------------------------- *)
+(* strings inside the tree are lists of Unicode code points (the harness prints ord() of every character) *)
+Inductive jv :=
+| JNull
+| JBool (b : bool)
+| JInt (z : Z)
+| JFloat (txt : bytes)          (* float.__repr__ / NaN / Infinity / -Infinity: CPython, data *)
+| JStr (s : list Z)
+| JList (l : list jv)
+| JDict (l : list (list Z * jv)).
+
+Definition lhex (n : Z) : Z := if n <? 10 then 48 + n else 87 + n.      (* '0'-'9','a'-'f' *)
+Definition uesc (n : Z) : bytes :=                                      (* '\\u{0:04x}' *)
+  [92; 117; lhex ((n / 4096) mod 16); lhex ((n / 256) mod 16); lhex ((n / 16) mod 16); lhex (n mod 16)].
+
+(* json.encoder.py_encode_basestring_ascii (the C version agrees) *)
+Definition jchar (c : Z) : bytes :=
+  if c =? 34 then [92;34] else if c =? 92 then [92;92] else if c =? 10 then [92;110]
+  else if c =? 13 then [92;114] else if c =? 9 then [92;116] else if c =? 12 then [92;102]
+  else if c =? 8 then [92;98]
+  else if (32 <=? c) && (c <=? 126) then [c]
+  else if c <? 65536 then uesc c
+  else uesc (55296 + ((c - 65536) / 1024) mod 1024) ++ uesc (56320 + (c - 65536) mod 1024).
+
+Definition jstring (s : list Z) : bytes := 34 :: flat_map jchar s ++ [34].
+
+Fixpoint jjoin (l : list bytes) : bytes :=
+  match l with
+  | [] => []
+  | [x] => x
+  | x :: r => x ++ 44 :: 32 :: jjoin r
+  end.
+
+Fixpoint jdumps (v : jv) : bytes :=
+  match v with
+  | JNull => [110;117;108;108]
+  | JBool true => [116;114;117;101]
+  | JBool false => [102;97;108;115;101]
+  | JInt z => print_int z
+  | JFloat t => t
+  | JStr s => jstring s
+  | JList l => 91 :: jjoin (map jdumps l) ++ [93]
+  | JDict l => 123 :: jjoin (map (fun kv => jstring (fst kv) ++ 58 :: 32 :: jdumps (snd kv)) l) ++ [125]
+  end.
+
 (* ---- glue for the correspondence check (executed by vm_compute in generated cases files) ---- *)
 Definition dvalue_eqb (a b : dvalue) : bool :=
   match a, b with
@@ -331,7 +376,8 @@ Definition has_err (d : decoded) : bool :=
 
 Inductive codec_in :=
 | CKw (okfloats : list bytes) (cmd : bytes) (kw : list (bytes * value))
-| CJson (cmd jsontext : bytes).
+| CJson (cmd jsontext : bytes)
+| CJsonT (cmd : bytes) (kw : list (list Z * jv)).     (* nested values: the model prints the JSON text itself *)
 
 (* observation: the encoded line, and the decode result (None = ValueError) *)
 Definition codec_run (i : codec_in) : bytes * option decoded :=
@@ -342,6 +388,9 @@ Definition codec_run (i : codec_in) : bytes * option decoded :=
       (line, if has_err d then None else Some d)
   | CJson cmd txt =>
       let line := encode_json cmd txt in
+      (line, Some (decode (fun _ => true) line))
+  | CJsonT cmd kw =>
+      let line := encode_json cmd (jdumps (JDict kw)) in
       (line, Some (decode (fun _ => true) line))
   end.
 
@@ -360,6 +409,223 @@ Definition reader_run (chunks : list bytes) : list rmsg * bool :=
 
 Definition reader_out_eqb (a b : list rmsg * bool) : bool :=
   list_eqb rmsg_eqb (fst a) (fst b) && Bool.eqb (snd a) (snd b).
+
+(* ================================================================================================== *)
+(* ---- sessions: send -> frame -> arbitrary chunking -> read_message -> _process_command ----------- *)
+(* One long-lived client object.  The model carries NO state from one message to the next except the
+   framing state [rmode]: what is delivered for a message is a function of that message alone
+   ([process]).  A decoder with memory (cache, shared dicts) is not expressible here, so any such change
+   shows up as a correspondence mismatch on streams in which lines recur. *)
+
+(* BCPClientSocket.send / AsyncioBcpClientSocket.send: (encode_command_string(...) + '\n').encode() *)
+Inductive sbody := SFlat (kw : list (bytes * value)) | SJson (jsontext : bytes).
+Inductive smsg := SM (cmd : bytes) (body : sbody) (payload : option bytes).
+
+Definition send_line (cmd : bytes) (b : sbody) : bytes :=
+  match b with SFlat kw => encode cmd kw | SJson t => encode_json cmd t end.
+
+Definition send_bytes (cmd : bytes) (b : sbody) : bytes := send_line cmd b ++ [10].
+
+(* what the peer puts on the wire for a message with an attached payload: line&bytes=N\n<N bytes> *)
+Definition wire (m : smsg) : bytes :=
+  match m with
+  | SM cmd b None => send_bytes cmd b
+  | SM cmd b (Some p) => (send_line cmd b ++ s_marker ++ print_int (Z.of_nat (length p))) ++ 10 :: p
+  end.
+
+(* `if rawbytes: kwargs['rawbytes'] = rawbytes` : an empty payload is not attached *)
+Definition attach (p : option bytes) : option bytes :=
+  match p with Some (b :: t) => Some (b :: t) | _ => None end.
+
+Inductive delivered := Dl (d : decoded) (raw : option bytes).
+Inductive variant := VAsyncio | VMpf.
+Inductive pres := PDeliver (x : delivered) | PConsumed | PDie.
+
+Definition s_hello := [104;101;108;108;111].
+Definition s_goodbye := [103;111;111;100;98;121;101].
+
+Definition decoded_cmd (d : decoded) : bytes := match d with DJson c _ => c | DKw c _ => c end.
+Definition decoded_noargs (d : decoded) : bool := match d with DKw _ [] => true | _ => false end.
+
+(* _process_command of the two clients.  BCPClientSocket consumes 'hello' (any kwargs) and 'goodbye'
+   (a goodbye with parameters or payload is a TypeError: _receive_goodbye() takes none). *)
+Definition process (float_ok : bytes -> bool) (v : variant) (m : rmsg) : pres :=
+  match m with
+  | Msg line p =>
+      let d := decode float_ok line in
+      if has_err d then PDie
+      else match v with
+           | VAsyncio => PDeliver (Dl d (attach p))
+           | VMpf =>
+               if zs_eqb (decoded_cmd d) s_hello then PConsumed
+               else if zs_eqb (decoded_cmd d) s_goodbye then
+                 (if decoded_noargs d && match attach p with None => true | Some _ => false end
+                  then PConsumed else PDie)
+               else PDeliver (Dl d (attach p))
+           end
+  end.
+
+Fixpoint deliver_all (float_ok : bytes -> bool) (v : variant) (ms : list rmsg) : list delivered * bool :=
+  match ms with
+  | [] => ([], false)
+  | m :: r =>
+      match process float_ok v m with
+      | PDie => ([], true)
+      | PConsumed => deliver_all float_ok v r
+      | PDeliver x => let '(o, d) := deliver_all float_ok v r in (x :: o, d)
+      end
+  end.
+
+(* (messages returned by read_message in order, did the reader raise) *)
+Definition session_run (float_ok : bytes -> bool) (v : variant) (chunks : list bytes) : list delivered * bool :=
+  let '(st, msgs) := rfeed_chunks (RLine []) chunks in
+  let '(out, dead) := deliver_all float_ok v msgs in
+  (out, dead || match st with RBroken => true | _ => false end).
+
+(* cut a stream into reads of the given lengths (the rest is the last read) *)
+Fixpoint cut (lens : list Z) (s : bytes) : list bytes :=
+  match lens with
+  | [] => [s]
+  | n :: r => firstn (Z.to_nat n) s :: cut r (skipn (Z.to_nat n) s)
+  end.
+
+Definition delivered_eqb (a b : delivered) : bool :=
+  match a, b with Dl d p, Dl d' p' => decoded_eqb d d' && option_eqb zs_eqb p p' end.
+
+Definition sess_out := (list bytes * ((list delivered * bool) * (list delivered * bool)))%type.
+
+(* end to end: what each send() writes, and what each of the two readers delivers from the wire stream *)
+Definition session_e2e (i : list bytes * list smsg * list Z) : sess_out :=
+  let '(okf, ms, lens) := i in
+  let fo := fun t => mem_key t okf in
+  let chunks := cut lens (flat_map wire ms) in
+  (map (fun m => match m with SM c b _ => send_bytes c b end) ms,
+   (session_run fo VAsyncio chunks, session_run fo VMpf chunks)).
+
+Definition sess_res_eqb (a b : list delivered * bool) : bool :=
+  list_eqb delivered_eqb (fst a) (fst b) && Bool.eqb (snd a) (snd b).
+
+Definition sess_out_eqb (a b : sess_out) : bool :=
+  zss_eqb (fst a) (fst b) && sess_res_eqb (fst (snd a)) (fst (snd b)) && sess_res_eqb (snd (snd a)) (snd (snd b)).
+
+(* ---- from the reader to a registered handler: BcpTransportManager._receive_loop ->
+        BcpInterface.process_bcp_message -> bcp_receive_commands[cmd](client=client, **kwargs) ----------
+   Logging configuration does not occur in the model: the handler gets exactly what _process_command
+   returned, for every configuration.  Commands without a registered handler are dropped (warning). *)
+Definition delivered_cmd (x : delivered) : bytes := match x with Dl d _ => decoded_cmd d end.
+
+Definition s_trigger := [116;114;105;103;103;101;114].          (* "trigger" *)
+Definition s_name := [110;97;109;101].                          (* "name" *)
+Definition s_frombcp := [95;102;114;111;109;95;98;99;112].      (* "_from_bcp" *)
+
+Inductive hevent :=
+| HCall (x : delivered)                                               (* callback(client=client, **kwargs) *)
+| HEvent (ev : bytes) (kw : list (bytes * dvalue)) (raw : option bytes).   (* event posted for a 'trigger' command *)
+
+Definition remove_key (k : bytes) (l : list (bytes * dvalue)) : list (bytes * dvalue) :=
+  filter (fun kv => negb (zs_eqb (fst kv) k)) l.
+
+(* process_bcp_message: a registered command's callback gets the kwargs as they are; the built-in
+   _bcp_receive_trigger(client, name, callback=None, **kwargs) sets kwargs['_from_bcp'] = True and posts the event
+   `name` with the remaining parameters (modelled for flat messages with a string name and no 'callback' parameter;
+   an event nobody listens to has no observable effect); any other command is dropped with a warning *)
+Definition handle (registered in_events : list bytes) (x : delivered) : list hevent :=
+  match x with
+  | Dl (DKw cmd kw) raw =>
+      if zs_eqb cmd s_trigger then
+        match assoc_z s_name kw with
+        | Some (DVal (VStr ev)) =>
+            if mem_key ev in_events
+            then [HEvent ev (remove_key s_name kw ++ [(s_frombcp, DVal (VBool true))]) raw] else []
+        | _ => []
+        end
+      else if mem_key cmd registered then [HCall x] else []
+  | Dl (DJson cmd _) _ => if mem_key cmd registered then [HCall x] else []
+  end.
+
+Definition hevent_eqb (a b : hevent) : bool :=
+  match a, b with
+  | HCall x, HCall y => delivered_eqb x y
+  | HEvent e k r, HEvent e' k' r' => zs_eqb e e' && list_eqb kv_eqb k k' && option_eqb zs_eqb r r'
+  | _, _ => false
+  end.
+
+Definition is_call (h : hevent) : bool := match h with HCall _ => true | HEvent _ _ _ => false end.
+
+(* Observation: the calls of registered command callbacks in order, and the events seen by event handlers in order.
+   (Commands are dispatched strictly in the order sent; a posted event is handled by the event queue, FIFO among
+   events but possibly after the callback of a later command: that interleaving is not part of the observation.) *)
+Definition handler_run (i : list bytes * (list bytes * list bytes) * list smsg * list Z * list smsg)
+  : ((list hevent * list hevent) * bool) * list bytes :=
+  let '(okf, (registered, in_events), ms, lens, posts) := i in
+  let fo := fun t => mem_key t okf in
+  let '(out, dead) := session_run fo VMpf (cut lens (flat_map wire ms)) in
+  let hs := flat_map (handle registered in_events) out in
+  (((filter is_call hs, filter (fun h => negb (is_call h)) hs), dead),
+   (* bcp_trigger -> send_to_clients_with_handler -> BCPClientSocket.send: one line per posted event *)
+   map (fun m => match m with SM c b _ => send_bytes c b end) posts).
+
+Definition handler_out_eqb (a b : ((list hevent * list hevent) * bool) * list bytes) : bool :=
+  list_eqb hevent_eqb (fst (fst (fst a))) (fst (fst (fst b))) &&
+  list_eqb hevent_eqb (snd (fst (fst a))) (snd (fst (fst b))) &&
+  Bool.eqb (snd (fst a)) (snd (fst b)) && zss_eqb (snd a) (snd b).
+
+(* ---- bcp_pickle_client.py (with fixes/C19-pickle-client-loads-dumps.patch): struct.pack("!I", len) + pickle ---- *)
+(* The pickles themselves are opaque byte strings (pickle.dumps / pickle.loads are CPython). *)
+Definition be32 (n : Z) : bytes :=
+  [(n / 16777216) mod 256; (n / 65536) mod 256; (n / 256) mod 256; n mod 256].
+
+Definition unbe32 (h : bytes) : Z :=
+  match h with [a; b; c; d] => ((a * 256 + b) * 256 + c) * 256 + d | _ => 0 end.
+
+(* send(): complete_message = struct.pack("!I", len(message_raw)) + message_raw *)
+Definition pk_frame (p : bytes) : bytes := be32 (Z.of_nat (length p)) ++ p.
+
+(* read_message(): readexactly(4), readexactly(length) as a byte-at-a-time machine *)
+Inductive pkmode :=
+| PkHdr (acc : bytes)                    (* collecting the 4 length bytes, reversed *)
+| PkBody (need : nat) (acc : bytes).     (* collecting the pickle, reversed *)
+
+Definition pkstep (st : pkmode) (b : Z) : pkmode * list bytes :=
+  match st with
+  | PkHdr acc =>
+      match acc with
+      | [_; _; _] =>
+          let n := unbe32 (List.rev (b :: acc)) in
+          if n =? 0 then (PkHdr [], [[]]) else (PkBody (Z.to_nat n) [], [])
+      | _ => (PkHdr (b :: acc), [])
+      end
+  | PkBody need acc =>
+      match need with
+      | S O => (PkHdr [], [List.rev (b :: acc)])
+      | S n => (PkBody n (b :: acc), [])
+      | O => (PkHdr [], [List.rev acc])          (* unreachable: need >= 1 *)
+      end
+  end.
+
+Fixpoint pkfeed (st : pkmode) (bs : bytes) : pkmode * list bytes :=
+  match bs with
+  | [] => (st, [])
+  | b :: t =>
+      let '(st1, o1) := pkstep st b in
+      let '(st2, o2) := pkfeed st1 t in
+      (st2, o1 ++ o2)
+  end.
+
+Fixpoint pkfeed_chunks (st : pkmode) (chunks : list bytes) : pkmode * list bytes :=
+  match chunks with
+  | [] => (st, [])
+  | c :: cs =>
+      let '(st1, o1) := pkfeed st c in
+      let '(st2, o2) := pkfeed_chunks st1 cs in (st2, o1 ++ o2)
+  end.
+
+(* observation: (the bytes send() wrote for each pickle, the pickles read_message handed to pickle.loads) *)
+Definition pickle_run (i : list bytes * list Z) : list bytes * list bytes :=
+  let '(blobs, lens) := i in
+  (map pk_frame blobs, snd (pkfeed_chunks (PkHdr []) (cut lens (flat_map pk_frame blobs)))).
+
+Definition pickle_out_eqb (a b : list bytes * list bytes) : bool := zss_eqb (fst a) (fst b) && zss_eqb (snd a) (snd b).
 
 (* ---- BcpTransportManager._receive_loop: each command's handler is awaited before the next read ---- *)
 (* input: per message (is a registered command?, id); observation: (true,id) = handler started,
